@@ -174,8 +174,9 @@ fn stress_case() -> BoxedStrategy<Case> {
 }
 
 /// Run the program once with really parallel threads (no hooks), released by a barrier.
-fn execute_parallel(p: &Program) -> Vec<Vec<Answer>> {
+fn execute_parallel(p: &Program) -> Result<Vec<Vec<Answer>>, String> {
   let n = p.threads.len();
+  let ktids: Arc<Mutex<Vec<u32>>> = Arc::new(Mutex::new(vec![0; n]));
   let tree: BoxSource = build_shared(p);
   let text = Arc::new(model_text(&p.tree));
   let answers: Arc<Mutex<Vec<Vec<Answer>>>> = Arc::new(Mutex::new(vec![vec![]; n]));
@@ -188,10 +189,15 @@ fn execute_parallel(p: &Program) -> Vec<Vec<Answer>> {
     }
     let pool = pool.as_ref().unwrap();
     for (tid, ops) in p.threads.iter().enumerate() {
-      let (tree, text, answers, ops, spec, done_tx, barrier) =
-        (tree.clone(), text.clone(), answers.clone(), ops.clone(), p.tree.clone(), done_tx.clone(), barrier.clone());
+      let (tree, text, answers, ops, spec, done_tx, barrier, ktids) =
+        (tree.clone(), text.clone(), answers.clone(), ops.clone(), p.tree.clone(), done_tx.clone(), barrier.clone(), ktids.clone());
       let job: Job = Box::new(move || {
         let mut keep: Vec<Retained> = vec![];
+        ktids.lock().unwrap()[tid] = std::fs::read_link("/proc/thread-self")
+          .ok()
+          .and_then(|p| p.file_name().map(|n| n.to_string_lossy().to_string()))
+          .and_then(|s| s.parse::<u32>().ok())
+          .unwrap_or(0);
         barrier.wait();
         let mut mine = vec![];
         for op in ops {
@@ -210,11 +216,41 @@ fn execute_parallel(p: &Program) -> Vec<Vec<Answer>> {
       pool.workers[tid].send(job).expect("worker pool");
     }
   });
-  for _ in 0..n {
-    let _ = done_rx.recv();
+  // wait for the threads; if for ten seconds on end every unfinished one sleeps in the kernel and none
+  // finishes, they wait for each other: a real deadlock (the workers are abandoned with their pool)
+  let mut done = vec![false; n];
+  let mut asleep_polls = 0u32;
+  while done.iter().any(|d| !d) {
+    match done_rx.recv_timeout(std::time::Duration::from_millis(100)) {
+      Ok(t) => {
+        done[t] = true;
+        asleep_polls = 0;
+      }
+      Err(std::sync::mpsc::RecvTimeoutError::Disconnected) => break,
+      Err(std::sync::mpsc::RecvTimeoutError::Timeout) => {
+        let tids = ktids.lock().unwrap().clone();
+        let all_asleep = (0..n).filter(|t| !done[*t]).all(|t| {
+          tids[t] != 0
+            && std::fs::read_to_string(format!("/proc/self/task/{}/stat", tids[t]))
+              .ok()
+              .and_then(|s| s.rsplit_once(") ").map(|(_, rest)| rest.starts_with('S')))
+              .unwrap_or(false)
+        });
+        asleep_polls = if all_asleep { asleep_polls + 1 } else { 0 };
+        if asleep_polls >= 100 {
+          POOL.with(|pool| {
+            if let Some(p) = pool.borrow_mut().take() {
+              std::mem::forget(p);
+            }
+          });
+          let stuck: Vec<usize> = (0..n).filter(|t| !done[*t]).collect();
+          return Err(format!("deadlock: threads {stuck:?} have been asleep in the kernel for ten seconds and none of them finishes"));
+        }
+      }
+    }
   }
   let out = answers.lock().unwrap().clone();
-  out
+  Ok(out)
 }
 
 fn exhaustive_case() -> BoxedStrategy<Case> {
@@ -611,7 +647,7 @@ impl Prop for C18 {
       }
       Mode::Stress { rounds } => {
         for round in 0..*rounds {
-          let got = execute_parallel(p);
+          let got = execute_parallel(p).map_err(|e| format!("really parallel run #{round}: {e}"))?;
           for (t, ops) in p.threads.iter().enumerate() {
             for (k, op) in ops.iter().enumerate() {
               let cu = p.tree.cached_under_replace();
